@@ -1,5 +1,5 @@
 (* C02 — Reconciliation converges to exactly the desired pods and then goes quiet.  Statements only. *)
-From ASTS Require Import Base Slots Names World Reconcile ReconcileCheck PlanProofs ReconcileProofs ConvergeProofs Env TerminationProofs ExampleWorld.
+From ASTS Require Import Base Slots Names World Reconcile ReconcileCheck PlanProofs ReconcileProofs ConvergeProofs Env TerminationProofs QuietProofs ExampleWorld.
 
 (* pods_converged s upd cnt slots pods (ConvergeProofs.v): every desired ordinal holds a pod that is created,
    not failed/succeeded, Running and Ready, not terminating, with identity and storage in order, and — when the
@@ -101,14 +101,31 @@ Example C02_ex_run :
   = [("web-2", "web-h2"); ("web-3", "web-h2"); ("web-0", "web-h2")]%string.
 Proof. vm_compute. reflexivity. Qed.
 
+(* (3c) QUIET.  quietb api cache (QuietProofs.v) is decidable: no orphan revision to adopt, every cached pod foreign
+   or already claimed, the update revision exists and is the newest of its equals, the plan of the pod phase
+   empty (by (2): the claimed pods converged), the stored status equal to the one the pod phase computes, the
+   revision history within its limit.  In such a world a reconcile without injected faults succeeds, leaves
+   the API state untouched, and its log holds list / get calls only: no write at all. *)
+Theorem C02_quiet_world_no_write :
+  forall hashes api cache, quietb hashes api cache = true ->
+  exists log, reconcile hashes api cache [] = (OOk, log, api) /\ forall c e, In (c, e) log -> is_read c.
+Proof. exact quiet_reconcile. Qed.
+Print Assumptions C02_quiet_world_no_write.
+
+Example C02_ex_quiet :
+  let w := ex_world (ex_set 3 None "Parallel" 1 0 (ex_status 3 "web-h1" "web-h1")) ex_healthy3 [ex_rev "web-h1" 1 1] in
+  quietb ex_hashes w w = true.
+Proof. vm_compute. reflexivity. Qed.
+
 (* (4) PARTIAL — what is NOT proved.  Full statement: for every WF world there is n <= bound(world) such that
    n fair rounds reach a world that is converged with status.replicas = readyReplicas = spec.replicas, after
    which a reconcile issues no write at all (status and revisions included).  Proved: (1)-(3) — the pod phase
    is never stuck, is quiet exactly at the converged states, and reaches one in at most mu rounds.  NOT proved
    in Coq: that the pods of the API world after a fair round of the FULL reconcile model (revision phase,
    adoption, executor) are the pods of `round` — this step is evaluated, not proved: props/c02.py compares
-   `round` with the Env.v round on every generated settled world inside coqc; and quietness of the status /
-   revision writes at the fixed point.  Both are also decided on the implementation by props/c02.py on every
+   `round` with the Env.v round on every generated settled world inside coqc; and that the world a fair history
+   ends in satisfies quietb (the stored status is the computed one, the history is tidy) — props/c02.py
+   evaluates quietb inside coqc on the final world of every generated history.  Both are also decided on the implementation by props/c02.py on every
    generated history (chaotic prefix of reconciles, kubelet events, partial cache refreshes, transient
    faults, edits that stop; then the fair suffix): the set must be converged, the status must be the census,
    and the last two reconciles must issue no write; the environment model Env.v is compared with the real
